@@ -177,7 +177,11 @@ class FullCheck(BaseCheck):
         if rng.random() < fault_p:
           stats['faults_fired'] += 1
           classes.add('io-fault:' + op)
-          return simnet.Fault(rng.choice(['error', 'eof'] + (['silence'] if op == 'recv' else [])))
+          kind_ = rng.choice(['error', 'eof'] + (['silence'] if op == 'recv' else []))
+          # the error the operating system reports varies: a reset, or a connection that timed out at the TCP
+          # level (ETIMEDOUT, which Python raises as the built-in TimeoutError), or an unreachable host
+          import errno as errno_
+          return simnet.Fault(kind_, rng.choice([errno_.ECONNRESET, errno_.ECONNRESET, errno_.ETIMEDOUT, errno_.EHOSTUNREACH]))
         return None
       net.fault_fn = fault_fn
     if rng.random() < bias.get('send_stall', 0.15):
